@@ -26,6 +26,7 @@ def run(ctx):
     ctx.rule("R12.4", "in the scheduler's blocking path Lock::check precedes wait_lock")
     ctx.rule("R12.5", "recorded-graph walk: visited-set test first, own id inserted before recursing, recursion receives the extended set")
     ctx.rule("R12.6", "CyclicDependency maps to exit status 208")
+    ctx.rule("R12.8", "every lock held by the forking process is visible to the child's cycle check (own job and sibling jobs)")
     ctx.rule("R12.7", "the shortest cycle (a target asking for itself) is refused by add_dep with CyclicDependency, not by an assertion")
 
     for m in ("try_lock", "wait_lock"):
@@ -58,31 +59,56 @@ def run(ctx):
         ok = bool(errs) and yba.path([t_t], yba.returns(), avoid=frozenset(errs), incl=True) is None and bool(yba.calls(r"cycles::get"))
     ctx.ob("R12.1", "cycles::check|member=>CyclicDependency", ok, where=cyc.span, detail="membership in cycles::get() returns CyclicDependency")
 
-    # ---- R12.2
+    # ---- R12.2: every forked child that runs while its parent keeps the target's lock gets that lock's id
     fcs = anchors.fork_closures(prog)
     SS = anchors.start_self(prog)
-    do_child = [cl for parent, cbb, cl in fcs if parent.key == SS.key]
-    if ctx.ob("R12.2", "do-child-closure", len(do_child) == 1, where=SS.span, detail="%d .do child closures" % len(do_child)):
-        cl = do_child[0]
+    ctx.floor("R12.2", "closures handed to JobServerHandle::start", len(fcs), 2)
+    for parent, cbb, cl in fcs:
         lba = BA.of(cl)
         ex = lba.calls(r"nix::unistd::execvp")
         ad = lba.calls(r"cycles::add")
-        common.mpt(ctx, "R12.2", "%s|cycles::add-before-exec" % cl.key, cl, [0], ex, ad, "cycles::add precedes execvp on every path", "the .do can be exec'd without adding its lock id to the inherited set: a cycle through it is not detected")
+        common.mpt(ctx, "R12.2", "%s|cycles::add-before-exec" % cl.key, cl, [0], ex, ad, "cycles::add precedes execvp on every path",
+                   "the child can be exec'd without the lock id of the target its parent keeps locked: a cycle through it is not detected and the chain blocks in F_SETLKW for ever")
         ok = False
         if ad:
             sl, org, _ = backward_direct(cl, op_local(cl.blocks[ad[0]]["term"]["args"][0]), depth=80)
-            fid = [o for o in org if o[0] == "call" and call_matches(o[2], r"state::Lock::file_id")]
-            for o in fid:
-                pl = lba.resolve_ref(op_local(o[2]["args"][0]))
-                chain = lba.ref_chain(op_local(o[2]["args"][0]))
-                for l in chain:
+            # (a) file_id() of the captured lock, called in the child
+            for o in [o for o in org if o[0] == "call" and call_matches(o[2], r"state::Lock::file_id")]:
+                for l in lba.ref_chain(op_local(o[2]["args"][0])):
                     d = lba.single_def(l)
                     if d and d[0] == "stmt" and d[3]["k"] in ("ref", "use"):
                         for p in __import__("core").rvalue_places(d[3]):
                             u = upvar_index(p)
-                            if u and u[1] == "lock":
-                                ok = True
-        ctx.ob("R12.2", "%s|adds-own-lock-id" % cl.key, ok, where=ctx.where(cl, ad[0]) if ad else cl.span, detail="the id added is file_id() of the job's captured lock" if ok else "the id added is not the job's own lock id")
+                            if u:
+                                pl = _upvar_parent_local(parent, cl, u[0])
+                                if pl is not None and parent.locals[pl] in ("state::Lock", "&state::Lock"):
+                                    ok = True
+            # (b) a captured value that the parent computed with Lock::file_id()
+            ups = set()
+            for l in sl:
+                for d in lba.defs.get(l, []):
+                    if d[0] == "stmt":
+                        for p in __import__("core").rvalue_places(d[3]):
+                            u = upvar_index(p)
+                            if u:
+                                ups.add(u[0])
+                    elif d[0] == "call":
+                        for a in d[2]["args"]:
+                            p = op_place(a)
+                            u = upvar_index(p) if p else None
+                            if u:
+                                ups.add(u[0])
+            for ui in ups:
+                pl = _upvar_parent_local(parent, cl, ui)
+                if pl is None:
+                    continue
+                pba = BA.of(parent)
+                for x in [pl] + pba.ref_chain(pl):
+                    s2, o2, _ = backward_direct(parent, x, depth=40)
+                    if any(o[0] == "call" and call_matches(o[2], r"state::Lock::file_id") for o in o2):
+                        ok = True
+        ctx.ob("R12.2", "%s|adds-own-lock-id" % cl.key, ok, where=ctx.where(cl, ad[0]) if ad else cl.span,
+               detail="the id added is file_id() of the job's lock" if ok else "the id added is not the job's own lock id")
     fid = prog.one(r"state::Lock::file_id")
     ok = any(place_fields(p)[-1:] == ["state::Lock.fid"] for blk in fid.blocks for s in blk["stmts"] if s["s"] == "assign" for p in __import__("core").rvalue_places(s["rv"]))
     ctx.ob("R12.2", "Lock::file_id|returns-fid", ok, where=fid.span, detail="file_id() returns the id the lock was created with")
@@ -130,6 +156,7 @@ def run(ctx):
     dirt.visited_set(ctx, "R12.5")
 
     self_dependency_rule(ctx, "R12.7")
+    sibling_locks_rule(ctx, "R12.8")
 
     ec = prog.one(r"error::RedoErrorKind::exit_code")
     eba = BA.of(ec)
@@ -144,6 +171,47 @@ def run(ctx):
                 vals = [c.get("int") for (bb, c) in common.ret_const_assigns(ec) if bb in r]
                 ok = vals == [208]
     ctx.ob("R12.6", "exit_code|CyclicDependency=>208", ok, where=ec.span, detail="the CyclicDependency arm returns 208")
+
+
+def _upvar_parent_local(parent, cl, idx):
+    """Local of `parent` captured as upvar #idx of closure `cl` (through a `&x` temporary)."""
+    from core import closure_sites
+    for (bb, j, dest, k, ops) in closure_sites(parent, cl.key):
+        if idx < len(ops):
+            l = op_local(ops[idx])
+            if l is None:
+                return None
+            pl = BA.of(parent).resolve_ref(l)
+            if pl is not None and not pl["p"]:
+                return pl["l"]
+            return l
+    return None
+
+
+def sibling_locks_rule(ctx, rid):
+    """R12.8: a job's child inherits the ids of *every* lock its forking process holds - not only
+    the job's own - or else the process never starts a job while other jobs (whose futures own
+    locks) are outstanding."""
+    prog = ctx.prog
+    S = anchors.scheduler(prog)
+    ba = BA.of(S)
+    pushes = ba.calls(common.PUSH)
+    starts = ba.calls(re.escape(anchors.job_start(prog).key))
+    drains = set(common.drain_ready_blocks(S))
+    overlapped = ba.path(pushes, starts, avoid=frozenset(drains)) if pushes and starts else None
+    # does any fork closure export all held locks (a loop over the lock registry feeding cycles::add)?
+    exports_all = False
+    for parent, cbb, cl in anchors.fork_closures(prog):
+        cba = BA.of(cl)
+        adds = cba.calls(r"cycles::add")
+        if any(cba.path([a], [a]) for a in adds) or cba.calls(r"state::LockManager::held_ids|state::Lock::held"):
+            exports_all = True
+    ok = overlapped is None or exports_all
+    ctx.ob(rid, "%s|sibling-job-locks-in-cycle-set" % S.key, ok, where=ctx.where(S, starts[0]) if starts else S.span,
+           detail="jobs never overlap, or every held lock id is exported to the child" if ok else
+           ("at -j>1 the scheduler starts a job while it still holds the locks of other running jobs, but a child's REDO_CYCLES only gets its own job's lock id: "
+            "when two members of one cycle are named on the same command line (`redo -j2 a b` with a <-> b) each chain blocks on the lock of the other's ancestor for ever"),
+           witness={"path": overlapped[:20] if overlapped else None})
 
 
 def self_dependency_rule(ctx, rid):
